@@ -42,11 +42,19 @@ fn certified_via_map_data(good: &[u8], img: &[u8]) -> Result<Option<&'static str
             Ok(f) => f,
             Err(_) => return None,
         };
+        // the good container has been verified (possibly several times) before the data is swapped: a verdict must never be
+        // carried over from earlier bytes to later ones
+        let first = f.verify();
+        let second = f.verify();
+        if first.is_err() || second.is_err() {
+            return Some("verify() on the unchanged built bytes fails (first or repeated call)");
+        }
         match f.map_data(|_| img.to_vec()) {
             Err(_) => None,
-            Ok(g) => match g.verify() {
-                Ok(()) => Some("map_data() onto the corrupted bytes succeeds and verify() returns Ok"),
-                Err(_) => None,
+            Ok(g) => match (g.verify(), g.verify()) {
+                (Ok(()), _) => Some("verify(), then map_data() onto the corrupted bytes, then verify() returns Ok"),
+                (_, Ok(())) => Some("a repeated verify() on the corrupted bytes returns Ok"),
+                _ => None,
             },
         }
     })
